@@ -135,6 +135,8 @@ def main():
         lo = chr(c).lower()
         if lo != chr(c):
             lower.append((c, [ord(x) for x in lo]))
+    lower_ascii = [e for e in lower if e[0] < 128]
+    lower = [e for e in lower if e[0] >= 128]
     # code points matching an ASCII lowercase letter under IGNORECASE|UNICODE
     letters = sorted(set(ch for t in ap.ALL_TAGS for ch in t if ch != ' ') |
                      set('stableunstableprivateinternal'))
@@ -200,7 +202,11 @@ def arityTable : List (String × String × String × Option (List String) × Opt
 /-- every line pattern as parsed by CPython's regex parser -/
 def patternShapes : List (String × String) := %s
 
-/-- `chr(c).lower()` for every code point where it differs from `chr(c)` -/
+/-- `chr(c).lower()` for the ASCII code points where it differs from `chr(c)` -/
+def pyLowerAscii : List (Nat × List Nat) := %s
+%s
+/-- `chr(c).lower()` for every non-ASCII code point where it differs from `chr(c)` (chunked:
+    one list literal of this size exceeds the elaborator's recursion depth) -/
 def pyLowerTable : List (Nat × List Nat) := %s
 
 /-- for each ASCII letter used in a case-insensitive pattern: the code points matching it
@@ -224,7 +230,11 @@ end GIVerif.Gen
        strs(ap.GtkDocTag.valid_annotations),
        arity,
        lean_list(['(%s, %s)' % (lean_str(n), lean_str(s)) for n, s in shapes]),
-       lean_list(['(%d, %s)' % (c, lean_list([str(x) for x in l])) for c, l in lower]),
+       lean_list(['(%d, %s)' % (c, lean_list([str(x) for x in l])) for c, l in lower_ascii]),
+       '\n'.join('def pyLowerChunk%d : List (Nat × List Nat) := %s' % (
+           i // 100, lean_list(['(%d, %s)' % (c, lean_list([str(x) for x in l])) for c, l in lower[i:i + 100]]))
+           for i in range(0, len(lower), 100)),
+       ' ++ '.join('pyLowerChunk%d' % (i // 100) for i in range(0, len(lower), 100)),
        lean_list(['(%d, %s)' % (c, lean_list([str(x) for x in l])) for c, l in icase]))
     path, digest, changed = write_if_changed('AnnVocab.lean', text)
     print('gen_annvocab: %s sha256=%s changed=%s anns=%d tags=%d patterns=%d lower=%d arity=%d'
